@@ -184,6 +184,8 @@ pub enum WinAgg {
     Max,
     First,
     Last,
+    /// like Chain, and the result carries the member ids (8 bytes each) in `pad`
+    Members,
 }
 
 #[derive(Clone, Debug, Serialize, Deserialize, PartialEq, Eq)]
